@@ -324,7 +324,7 @@ Proof.
     + intros j Hj. apply start_of_to_inner. exact Hj.
     + intros i Hi. apply start_of_to_unwrap; assumption.
     + eexists. split; [reflexivity|]. split; [exact HL|exact HO].
-  - unfold rolling2_apply_idx_default. fold zs. rewrite rolling_apply_idx_default_eq by exact Hw.
+  - rewrite rolling2_apply_idx_default_pos by exact Hw. fold zs. rewrite rolling_apply_idx_default_eq by exact Hw.
     destruct (Hgen (start_of w)) as [HL HO].
     + intros j Hj. reflexivity.
     + intros i Hi. apply start_of_unwrap. exact Hw.
